@@ -628,14 +628,15 @@ func (d *Decimal) Modf(integ, frac *Decimal) {
 
 	// No fractional part.
 	if d.Exponent > 0 {
+		// integ is set before frac is cleared: frac may alias d.
+		if integ != nil {
+			integ.Set(d)
+		}
 		if frac != nil {
 			frac.Form = Finite
 			frac.Negative = neg
 			frac.Exponent = 0
 			frac.Coeff.SetInt64(0)
-		}
-		if integ != nil {
-			integ.Set(d)
 		}
 		return
 	}
@@ -643,14 +644,15 @@ func (d *Decimal) Modf(integ, frac *Decimal) {
 	exp := -int64(d.Exponent)
 	// d < 0 because exponent is larger than number of digits.
 	if exp > nd {
+		// frac is set before integ is cleared: integ may alias d.
+		if frac != nil {
+			frac.Set(d)
+		}
 		if integ != nil {
 			integ.Form = Finite
 			integ.Negative = neg
 			integ.Exponent = 0
 			integ.Coeff.SetInt64(0)
-		}
-		if frac != nil {
-			frac.Set(d)
 		}
 		return
 	}
@@ -673,7 +675,8 @@ func (d *Decimal) Modf(integ, frac *Decimal) {
 	if frac != nil {
 		icoeff.QuoRem(&d.Coeff, e, &frac.Coeff)
 		frac.Form = Finite
-		frac.Exponent = d.Exponent
+		// Not d.Exponent: integ may alias d, and its exponent was cleared above.
+		frac.Exponent = int32(-exp)
 		frac.Negative = neg
 	} else {
 		// This is the frac == nil, which means integ must not be nil since they both
